@@ -23,7 +23,8 @@ RULE = ('one case = one Configurator program (security policy absent / truthy ob
         'absent / name / falsy / NO_PERMISSION_REQUIRED, predicates, wrapper=, decorator=, five view kinds, bodies that return or '
         'raise; class views whose permission comes from @view_defaults on the class or on a base class; statements shuffled, the '
         'policy statement last in a quarter of the cases; optionally a second commit with overrides and with views for more '
-        'specific contexts, the application serving requests between the two commits) x a random decision table x 8-12 requests through Router.__call__; observation = ordered log of '
+        'specific contexts, the application serving requests between the two commits; in 40 % of the cases a second, open '
+        'application built from the same statements is alive in the same process and serves every request first) x a random decision table x 8-12 requests through Router.__call__; observation = ordered log of '
         'policy.permits calls (answers of several truthy/falsy kinds), decorator entries, view-body executions, the exception the '
         'main handler raised, and the final response or propagated exception. non-trivial = a policy is declared, at least one '
         'request ran a body right after a granted check and at least one request was refused; distinct by full case')
@@ -72,6 +73,8 @@ LEVEL_NOTE = ('Trusted: Coq kernel; the translator\'s primitive table and assump
               'preserving rewrite of a translated function raises no alarm; a semantic change makes a generated_is_model theorem fail and '
               'the correspondence/judge run produces the replay. C03 (a dependency) still pins _call_view/_find_views whole. Judge '
               'clauses J3-J7 (J7 = C03\'s most-specific-view specification, also for a registry that served requests before a later '
+              'commit and with a second application alive in the process; structural facts: per-registry lookup cache, no mutable '
+              'class-level attribute / default argument in the modelled files) '
               'commit) are validated by the run, not proved at judge level.')
 
 _facts_cache = {}
@@ -435,6 +438,8 @@ def kinds(case, obs):
     ks.append('commits:%d' % (1 if case.get('cut') is None else 2))
     if case.get('warm'):
         ks.append('case:requests-served-between-the-commits')
+    if case.get('sibling'):
+        ks.append('case:second-application-in-the-process')
     for s in case['stmts']:
         if s['k'] in ('notfound', 'forbidden', 'excview', 'static'):
             ks.append('stmt:' + s['k'])
